@@ -17,6 +17,7 @@ type halfPipe struct {
 	cond    *sync.Cond
 	buf     []byte
 	later   [][]byte // chunks the writer sends after a pause each (see Pause)
+	quiet   []bool   // quiet[i]: later[i] follows WITHOUT a pause - the writer sent it once the reader had read everything before it (a lock-step client)
 	wclosed bool     // the writer closed: the reader sees EOF after draining
 	rclosed bool     // the reader closed: writes fail, buffered data is dropped
 	fin     string   // how the stream ends once drained and closed: "" / "eof", "idle", "err"
@@ -74,11 +75,18 @@ func (p *halfPipe) read(b []byte) (int, error) {
 	if p.rclosed {
 		return 0, io.ErrClosedPipe
 	}
-	if len(p.buf) == 0 && len(p.later) > 0 {
-		// the writer pauses here for longer than the reader's deadline: this read times out (once),
-		// the next chunk is there for the read after it
+	for len(p.buf) == 0 && len(p.later) > 0 {
+		q := len(p.quiet) > 0 && p.quiet[0]
 		p.buf, p.later = p.later[0], p.later[1:]
-		return 0, timeoutErr{}
+		if len(p.quiet) > 0 {
+			p.quiet = p.quiet[1:]
+		}
+		if !q {
+			// the writer pauses here for longer than the reader's deadline: this read times out (once),
+			// the next chunk is there for the read after it
+			return 0, timeoutErr{}
+		}
+		// a lock-step client: it wrote the next chunk only now that the reader has consumed everything before it
 	}
 	if len(p.buf) == 0 {
 		switch p.fin {
@@ -102,9 +110,11 @@ func (p *halfPipe) closeWrite() {
 }
 
 // finish: the writer has sent everything (first chunk already written, the others follow a pause each).
-func (p *halfPipe) finish(later [][]byte, fin string) {
+func (p *halfPipe) finish(later [][]byte, fin string) { p.finishQ(later, nil, fin) }
+
+func (p *halfPipe) finishQ(later [][]byte, quiet []bool, fin string) {
 	p.mu.Lock()
-	p.later, p.fin, p.wclosed = later, fin, true
+	p.later, p.quiet, p.fin, p.wclosed = later, quiet, fin, true
 	p.cond.Broadcast()
 	p.mu.Unlock()
 }
@@ -157,6 +167,9 @@ func (c *BufConn) FailPeerWritesAfter(k int) {
 // times out) or by a connection error ("err"). Deadlines are not clocks here: a read "times out" exactly
 // where the script says the client pauses.
 func (c *BufConn) Finish(later [][]byte, fin string) { c.w.finish(later, fin) }
+
+// FinishQ is Finish with quiet[i] saying that later[i] follows without a pause (lock-step hand-over).
+func (c *BufConn) FinishQ(later [][]byte, quiet []bool, fin string) { c.w.finishQ(later, quiet, fin) }
 
 func (c *BufConn) LocalAddr() net.Addr                { return c.local }
 func (c *BufConn) RemoteAddr() net.Addr               { return c.remote }
